@@ -334,14 +334,16 @@ func findTagAtPosition(tags []ast.Tag, pos protocol.Position) *hoverElement {
 			}
 		}
 
-		// Cursor is on tag value (after the colon)
+		// Cursor is on tag value (after the colon). The tag's range ends with
+		// the value, which may be written after blanks ("trip: paris"): the
+		// value's own range is counted back from that end.
 		return &hoverElement{
 			context: HoverTagValue,
 			rng: ast.Range{
 				Start: ast.Position{
-					Line:   tag.Range.Start.Line,
-					Column: colonCol + 1,
-					Offset: tag.Range.Start.Offset + len(tag.Name) + 1,
+					Line:   tag.Range.End.Line,
+					Column: max(colonCol+1, tag.Range.End.Column-lsputil.UTF16Len(tag.Value)),
+					Offset: max(tag.Range.Start.Offset+len(tag.Name)+1, tag.Range.End.Offset-len(tag.Value)),
 				},
 				End: tag.Range.End,
 			},
